@@ -191,11 +191,11 @@ func run(sc scenario) (trace []event, err error) {
 		case "ACK":
 			ack = decodeCfg(f.Data)
 		case "MSG", "OPN":
+			if f.Type() == "MSG" && len(f.Data) >= 24 && dropReq[fmt.Sprint(f.Dir, binary.LittleEndian.Uint32(f.Data[20:]))] {
+				return nil // rest of an aborted message
+			}
 			if f.Type() == "MSG" && f.Dir == abortDir && len(f.Data) >= 24 {
 				req := binary.LittleEndian.Uint32(f.Data[20:])
-				if dropReq[fmt.Sprint(f.Dir, req)] {
-					return nil // rest of an aborted message
-				}
 				if !aborting && f.Kind() == 'C' {
 					aborting, abortReq, abortSeen = true, req, 0
 				}
